@@ -11,7 +11,7 @@ from .common import MachineryError
 
 MAXOBJ, MAXGRP = 40, 10
 KEYS = ["a", "b", "c"]
-IDX = ["i0", "im1", "iout", "s02", "s_2", "srev", "s1_", "mask", "maskArr", "maskBad", "maskNone", "ia", "iaArr", "perm", "faArr", "vecIdx"]
+IDX = ["i0", "im1", "imn", "iout", "s02", "s_2", "srev", "s1_", "mask", "maskArr", "maskBad", "maskNone", "ia", "iaArr", "perm", "faArr", "vecIdx"]
 
 
 def rnorm(fr):
